@@ -1,10 +1,11 @@
 import PsiProofs.Helper.C07_Lemmas
-import PsiProofs.Helper.C16_DftThms
+import PsiProofs.Helper.C16_Window
 /-!
 # C16 — spectral and level utilities satisfy their defining identities
 
 Part 1 (this section): the dB helpers of `psiaudio/util.py` over ℝ.
-Part 2: the DFT identities (`Helper/C16_*.lean`), re-exported at the end.
+Part 2: the DFT identities (`Helper/C16_*.lean`), re-exported at the end, including the windowed tone law for
+every cosine-sum window (`Helper/C16_Window.lean`).
 Round-off is not bounded by any theorem here; the `Float` instance of the same definitions is compared
 with the implementation on every run.
 -/
@@ -81,17 +82,86 @@ theorem csd_tone (n k : ℕ) (A p : ℝ) (hk : 0 < k) (hkn : 2 * k < n) :
     ∀ m, 2 * m ≤ n → m ≠ k → (csd n (toneSig n k A p) m).re = 0 ∧ (csd n (toneSig n k A p) m).im = 0 :=
   ⟨csd_tone_bin n k A p hk hkn, fun m hm hmk => csd_tone_other n k m A p hk hkn hm hmk⟩
 
-/-- **Tone law, Hann window** (SciPy's periodic `hann`, normalised by its mean as `util.csd` does): the tone
-still reads `A·e^{ip}` at every bin farther than the main-lobe half-width from DC and Nyquist. -/
+/-- **Tone law, any cosine-sum window.**  `cosWin a (M+1) n` is the periodic cosine-sum window
+`Σ_{m ≤ M} a_m cos(m·(-π + 2πj/n)) = Σ_m (-1)^m a_m cos(2π m j/n)` exactly as
+`scipy.signal.get_window(name, n)` (`fftbins=True`) builds it; `util.csd` normalises it by its mean.
+For *any* coefficients with `a_0 ≠ 0` the tone reads `A·e^{ip}` at its bin `k` whenever `M < k < n/2 - M`
+(half the main lobe away from DC and Nyquist — the property only asks for the full main-lobe width `2(M+1)`). -/
+theorem csd_cosine_window_tone (a : ℕ → ℝ) (M n k : ℕ) (A p : ℝ) (ha : a 0 ≠ 0) (hk : M < k)
+    (hkn : 2 * (k + M) < n) :
+    (csdW n (cosWin a (M + 1) n) (toneSig n k A p) k).re = A * Real.cos p ∧
+    (csdW n (cosWin a (M + 1) n) (toneSig n k A p) k).im = A * Real.sin p :=
+  csdW_cosWin_tone_bin a M n k A p ha hk hkn
+
+/-- …and there the windowed spectrum equals the unwindowed one, bin for bin. -/
+theorem csd_cosine_window_eq_csd (a : ℕ → ℝ) (M n k : ℕ) (A p : ℝ) (ha : a 0 ≠ 0) (hk : M < k)
+    (hkn : 2 * (k + M) < n) :
+    csdW n (cosWin a (M + 1) n) (toneSig n k A p) k = csd n (toneSig n k A p) k :=
+  csdW_cosWin_tone_eq a M n k A p ha hk hkn
+
+/-- **Tone law for SciPy's `hann`, `hamming`, `blackman`, `flattop`, `nuttall`, `blackmanharris`** (coefficient
+tables of `scipy.signal.windows`, `w.terms` = 2, 2, 3, 5, 4, 4 coefficients; `w.window n` is compared with
+`get_window(name, n)` on every windowed case of the harness): `A·e^{ip}` at every bin `k` with
+`w.terms - 1 < k` and `2(k + w.terms - 1) < n`. -/
+theorem csd_window_tone (w : CosWindow) (n k : ℕ) (A p : ℝ) (hk : w.terms - 1 < k)
+    (hkn : 2 * (k + (w.terms - 1)) < n) :
+    (csdW n (w.window n) (toneSig n k A p) k).re = A * Real.cos p ∧
+    (csdW n (w.window n) (toneSig n k A p) k).im = A * Real.sin p := by
+  rw [w.window_eq]
+  exact csdW_cosWin_tone_bin w.coef (w.terms - 1) n k A p w.coef_zero_ne hk hkn
+
+/-- The property's wording: *every bin farther than the window's main-lobe width from DC and Nyquist*.
+The full (null-to-null) main lobe of a cosine-sum window with `w.terms` coefficients is `2·w.terms` bins wide
+(hann / hamming 4, blackman 6, flattop 10, nuttall / blackmanharris 8 — the widths the oracle uses). -/
+theorem csd_window_tone_mainlobe (w : CosWindow) (n k : ℕ) (A p : ℝ) (hk : 2 * w.terms < k)
+    (hkn : 2 * (k + 2 * w.terms) < n) :
+    (csdW n (w.window n) (toneSig n k A p) k).re = A * Real.cos p ∧
+    (csdW n (w.window n) (toneSig n k A p) k).im = A * Real.sin p :=
+  csd_window_tone w n k A p (by omega) (by omega)
+
+/-- **Tone law, Hann window**, on the closed form `hannW n j = 1/2 - 1/2 cos(2πj/n)` (which is
+`CosWindow.hann.window n`, theorem `hann_window_eq`). -/
 theorem csd_hann_tone (n k : ℕ) (A p : ℝ) (hk : 2 < k) (hkn : 2 * (k + 2) < n) :
     (csdW n (hannW n) (toneSig n k A p) k).re = A * Real.cos p ∧
     (csdW n (hannW n) (toneSig n k A p) k).im = A * Real.sin p :=
   csdW_hann_tone_bin n k A p hk hkn
 
-/-- **Any averaging count**: `psd` over `avg` segments that each hold the whole-cycle tone reads `|A|` at bin `k`. -/
-theorem psd_tone (n k avg : ℕ) (A p : ℝ) (havg : 0 < avg) (hk : 0 < k) (hkn : 2 * k < n) (s : ℕ → ℝ)
-    (hs : ∀ r j, r < avg → j < n → s (r * n + j) = toneSig n k A p j) : psd (avg * n) avg s k = |A| :=
-  psd_tone_averages n k avg A p havg hk hkn s hs
+/-- the closed forms of SciPy's windows that the model's `CosWindow.window` amounts to -/
+theorem window_closed_forms (n j : ℕ) :
+    (CosWindow.hann.window n : ℕ → ℝ) j = 1 / 2 - 1 / 2 * Real.cos (2 * Real.pi * j / n) ∧
+    (CosWindow.hamming.window n : ℕ → ℝ) j = 54 / 100 - 46 / 100 * Real.cos (2 * Real.pi * j / n) ∧
+    (CosWindow.blackman.window n : ℕ → ℝ) j
+      = 42 / 100 - 50 / 100 * Real.cos (2 * Real.pi * j / n) + 8 / 100 * Real.cos (2 * Real.pi * 2 * j / n) :=
+  ⟨hann_window_eq n j, hamming_window_eq n j, blackman_window_eq n j⟩
+
+/-- **Any averaging count, any number of trimmed trailing samples**: a signal of `avg·n + e` samples, `e < avg`
+(what `N mod avg` can be), whose first `avg` segments of `n` samples each hold the whole-cycle tone and whose
+`e` trailing samples are arbitrary: `psd(…, waveform_averages=avg)` reads `|A|` at bin `k`. -/
+theorem psd_tone (n k avg e : ℕ) (A p : ℝ) (he : e < avg) (hk : 0 < k) (hkn : 2 * k < n) (s : ℕ → ℝ)
+    (hs : ∀ r j, r < avg → j < n → s (r * n + j) = toneSig n k A p j) : psd (avg * n + e) avg s k = |A| :=
+  psd_tone_trim n k avg e A p he hk hkn s hs
+
+/-- …the same through any cosine-sum window (built by `csd` for the segment length `n`). -/
+theorem psd_cosine_window_tone (a : ℕ → ℝ) (M n k avg e : ℕ) (A p : ℝ) (ha : a 0 ≠ 0) (he : e < avg)
+    (hk : M < k) (hkn : 2 * (k + M) < n) (s : ℕ → ℝ)
+    (hs : ∀ r j, r < avg → j < n → s (r * n + j) = toneSig n k A p j) :
+    psdW (avg * n + e) avg (cosWin a (M + 1) n) s k = |A| :=
+  psdW_tone_trim a M n k avg e A p ha he hk hkn s hs
+
+/-- …in particular through SciPy's six windows above. -/
+theorem psd_window_tone (w : CosWindow) (n k avg e : ℕ) (A p : ℝ) (he : e < avg) (hk : w.terms - 1 < k)
+    (hkn : 2 * (k + (w.terms - 1)) < n) (s : ℕ → ℝ)
+    (hs : ∀ r j, r < avg → j < n → s (r * n + j) = toneSig n k A p j) :
+    psdW (avg * n + e) avg (w.window n) s k = |A| := by
+  rw [w.window_eq]
+  exact psdW_tone_trim w.coef (w.terms - 1) n k avg e A p w.coef_zero_ne he hk hkn s hs
+
+/-- **Trimming, any signal**: `psd` keeps `trimLen N avg = N - N mod avg` samples and its value does not depend
+on the `N mod avg` trailing ones (with or without a window). -/
+theorem psd_trim (N avg : ℕ) (w s s' : ℕ → ℝ) (k : ℕ) (h : ∀ i, i < N - N % avg → s i = s' i) :
+    psd N avg s k = psd N avg s' k ∧ psdW N avg w s k = psdW N avg w s' k := by
+  rw [← trimLen_eq] at h
+  exact ⟨psd_congr N avg s s' k h, psdW_congr N avg w s s' k h⟩
 
 /-- **spectrum → signal inverts signal → spectrum** for even lengths `n = 2m`. -/
 theorem csdToSignal_csd (m : ℕ) (hm : 0 < m) (s : ℕ → ℝ) (j : ℕ) (hj : j < 2 * m) :
@@ -108,6 +178,23 @@ theorem toneConv_tone (n k : ℕ) (A p fs : ℝ) (hfs : fs ≠ 0) (hk : 0 < k) (
   ⟨toneConv_whole_cycles n k A p fs hfs hk hkn, tonePower_whole_cycles n k A p fs hfs hk hkn,
    fun hA hp => tonePhase_whole_cycles n k A p fs hfs hk hkn hA hp⟩
 
+/-- **Single-frequency estimator through a window**: with any of SciPy's cosine-sum windows `tone_conv`,
+`tone_power_conv`, `tone_phase_conv` return exactly what they return without a window — `√2·A·e^{ip}`, `|A|`, `p` —
+at every analysis frequency `k·fs/n` with `w.terms - 1 < k < n/2 - (w.terms - 1)`. -/
+theorem toneConv_window_tone (w : CosWindow) (n k : ℕ) (A p fs : ℝ) (hfs : fs ≠ 0) (hk : w.terms - 1 < k)
+    (hkn : 2 * (k + (w.terms - 1)) < n) :
+    ((toneConvW n (w.window n) (toneSig n k A p) fs (k * fs / n)).re = Real.sqrt 2 * A * Real.cos p ∧
+     (toneConvW n (w.window n) (toneSig n k A p) fs (k * fs / n)).im = Real.sqrt 2 * A * Real.sin p) ∧
+    tonePowerW n (w.window n) (toneSig n k A p) fs (k * fs / n) = |A| ∧
+    (0 < A → -Real.pi < p ∧ p ≤ Real.pi →
+      tonePhaseW n (w.window n) (toneSig n k A p) fs (k * fs / n) = p) := by
+  have e := toneConvW_cosWin_tone_eq w.coef (w.terms - 1) n k A p fs hfs w.coef_zero_ne hk hkn
+  rw [← w.window_eq] at e
+  have h := toneConv_tone n k A p fs hfs (by omega) (by omega)
+  refine ⟨by rw [e]; exact h.1, ?_, ?_⟩
+  · rw [tonePowerW, e]; exact h.2.1
+  · rw [tonePhaseW, e]; exact h.2.2
+
 /-- **Parseval, one-sided**: total power in the spectrum = mean square of the signal + the DC bin and (even `n`)
 the Nyquist bin counted a second time at half weight — exactly. -/
 theorem parseval (n : ℕ) (hn : 0 < n) (s : ℕ → ℝ) :
@@ -123,7 +210,26 @@ theorem rms_tone (n k : ℕ) (A p : ℝ) (hk : 0 < k) (hkn : 2 * k < n) : rms n 
 /-! non-vacuity -/
 example := csd_tone 8 1 3 (1/2) (by norm_num) (by norm_num)
 example := csd_hann_tone 16 3 3 (1/2) (by norm_num) (by norm_num)
+example := csd_cosine_window_tone (fun m => if m = 0 then 1 else 2) 3 32 5 3 (1/2) (by norm_num) (by norm_num)
+  (by norm_num)
+example := csd_window_tone .flattop 32 5 3 (1/2) (by decide) (by decide)
+example := csd_window_tone .hamming 16 2 3 (1/2) (by decide) (by decide)
+example := csd_window_tone .nuttall 32 4 3 (1/2) (by decide) (by decide)
+example := csd_window_tone_mainlobe .blackman 64 7 3 (1/2) (by decide) (by decide)
+example := psd_tone 8 1 4 3 3 (1/2) (by norm_num) (by norm_num) (by norm_num)
+  (fun i => if i < 32 then toneSig 8 1 (3 : ℝ) (1/2) (i % 8) else 7)
+  (fun r j hr hj => by
+    have h1 : r * 8 + j < 32 := by omega
+    simp only [h1, if_true, Nat.mul_add_mod_of_lt hj])
+example := psd_window_tone .hann 16 3 2 1 3 (1/2) (by norm_num) (by decide) (by decide)
+  (fun i => if i < 32 then toneSig 16 3 (3 : ℝ) (1/2) (i % 16) else 7)
+  (fun r j hr hj => by
+    have h1 : r * 16 + j < 32 := by omega
+    simp only [h1, if_true, Nat.mul_add_mod_of_lt hj])
+example (w s : ℕ → ℝ) := psd_trim 35 4 w s (fun i => if i < 32 then s i else 0) 1
+  (fun i hi => by simp only [show 35 - 35 % 4 = 32 by norm_num] at hi; simp [hi])
 example := toneConv_tone 8 1 3 (1/2) 100000 (by norm_num) (by norm_num) (by norm_num)
+example := toneConv_window_tone .flattop 32 5 3 (1/2) 100000 (by norm_num) (by decide) (by decide)
 example (s : ℕ → ℝ) := parseval 9 (by norm_num) s
 example (s : ℕ → ℝ) := csdToSignal_csd 4 (by norm_num) s 7 (by norm_num)
 
